@@ -98,7 +98,7 @@ CFG = {
         "C10_init_idempotent", "C10_init_frame", "C10_CoreOK_ctors", "C10_pure_ctors",
     ]] + [T + "tie_" + t for t in TIES] + [T + "tie_body_" + t for t in CTORS] + [T + n for n in [
         "C10_src_init_total", "C10_src_init_idempotent", "C10_src_init_frame",
-        "C10_datum_frame", "C10_datum_never_written", "C10_datum_pure", "C10_datum_history", "C10_pure_with_datums", "C10_step_datums_frame",
+        "C10_datum_frame", "C10_datum_never_written", "C10_datum_pure", "C10_datum_history", "C10_pure_with_datums", "C10_step_datums_frame", "C10_datum_panic_is_panic",
         "tie_transform3", "tie_closure", "tie_checkNotWGS", "tie_TransformConsts",
         "C10_mem_refines", "C10_mem_refines_flat", "C10_mem_refines_nil", "C10_mem_vertices", "C10_mem_input_kept",
     ]],
